@@ -29,7 +29,7 @@ prop('C02', 'fault_enumeration', 'same exhaustive corruption sweep; oracle = ind
      'Five root causes where the pinned e2fsck accepts inconsistent images are recorded as known findings (by root-cause signature or exact mutant id).',
      'trusted: xck, calibrated against e2fsck on the repo\'s 278 clean f_* images (tools/xck_calibrate.py); invariants e2fsck documents as ignorable are not asserted (list in the evidence assumptions).', '4/C02')
 prop('C13', 'fault_enumeration', 'exhaustive product of images (corpus + unrecovered journal + single-field mutants) x read-only invocations, byte-identity oracle',
-     'Every image of the set x 11-17 read-only invocations of e2fsck/debugfs/dumpe2fs/tune2fs/resize2fs/e2image/e2freefrag/mke2fs -n: the image file must keep its mtime/size after each invocation and be byte-identical at the end.',
+     'Every image of the set x 11-17 read-only invocations of e2fsck/debugfs/dumpe2fs/tune2fs/resize2fs/e2image/e2freefrag/mke2fs -n: the image file must keep its mtime/size after each invocation and be byte-identical at the end.  Part B: undo files recorded by tune2fs/debugfs/e2fsck -z (finished, unfinished, and every header/key field at boundary values under re-sealed checksums) x e2undo -n / -n -f / -n -v / -h / -n -z: image and undo file byte-identical afterwards.',
      'quick restricts mutants to fields that steer open-time behaviour (superblock, descriptors, journal superblock, MMP, reserved inodes); thorough uses the whole catalogue.', '4/C13')
 prop('C14', 'model_checking', 'exhaustive byte-flip coverage sweep over checksum-covered ranges + tool-operation x independent checksum recomputation + exhaustive CRC primitive comparison over length x alignment x GF(2) basis',
      '(a) each of ~35 tool operations on checksum-enabled corpus images and 7 mke2fs configurations: every checksum recomputed independently by xck; (b) every byte of the first objects of each kind (sampled for the rest) flipped: e2fsck -fn must exit non-zero and libext2fs\'s verifying read path must report an error; '
